@@ -6,7 +6,9 @@ import (
 	"fmt"
 	"math"
 	"math/big"
+	"math/rand"
 	"sort"
+	"strings"
 	"time"
 
 	"github.com/cosmos/cosmos-sdk/codec"
@@ -300,13 +302,13 @@ func (w *mtWorkload) Next(block int) []rig.Tx {
 					to = holder
 				}
 				amt, _ := w.amount(bal, t.Supply)
-				out = append(out, r.Mk(holder, &mtTag{Op: "transfer"}, &mttypes.MsgTransferMT{Id: tid, DenomId: cid, Amount: amt, Sender: holder.Addr.String(), Recipient: to.Addr.String()}))
+				out = append(out, r.Mk(holder, &mtTag{Op: "transfer"}, &mttypes.MsgTransferMT{Id: tid, DenomId: cid, Amount: amt, Sender: holder.Addr.String(), Recipient: mtSpell(rng, w.run, to.Addr.String())}))
 			}
 		case 5:
 			cid := classes[rng.Intn(len(classes))]
 			c := w.model[cid]
 			a := w.actor(c.Owner)
-			out = append(out, r.Mk(a, &mtTag{Op: "transfer-class"}, &mttypes.MsgTransferDenom{Id: cid, Sender: a.Addr.String(), Recipient: r.Acc(rng.Intn(len(r.Accounts))).Addr.String()}))
+			out = append(out, r.Mk(a, &mtTag{Op: "transfer-class"}, &mttypes.MsgTransferDenom{Id: cid, Sender: a.Addr.String(), Recipient: mtSpell(rng, w.run, r.Acc(rng.Intn(len(r.Accounts))).Addr.String())}))
 		}
 	}
 	return out
@@ -465,7 +467,7 @@ func (w *mtWorkload) apply(br *rig.BlockRecord, tx *rig.TxRecord, tag *mtTag) {
 		if m.Sender == c.Owner {
 			role = "owner"
 		}
-		to := m.Recipient
+		to := htCanonAddr(m.Recipient)
 		if trimSpace(to) == "" {
 			to = m.Sender
 		}
@@ -564,11 +566,11 @@ func (w *mtWorkload) apply(br *rig.BlockRecord, tx *rig.TxRecord, tag *mtTag) {
 				viol("transfer-beyond-balance", "%s transferred %d of %s holding only %s", m.Sender, m.Amount, m.Id, have)
 			}
 			setBal(t, m.Sender, new(big.Int).Sub(have, amt))
-			setBal(t, m.Recipient, new(big.Int).Add(bal(t, m.Recipient), amt))
+			setBal(t, htCanonAddr(m.Recipient), new(big.Int).Add(bal(t, htCanonAddr(m.Recipient)), amt))
 		} else if have.Cmp(amt) < 0 {
 			run.Count("hostile-transfer-rejected", 1)
 		}
-		run.Class("transfer", ac, fmt.Sprint("self=", m.Sender == m.Recipient), outcome)
+		run.Class("transfer", ac, fmt.Sprint("self=", m.Sender == htCanonAddr(m.Recipient)), outcome)
 	case *mttypes.MsgBurnMT:
 		c := w.model[m.DenomId]
 		if c == nil || c.Toks[m.Id] == nil {
@@ -607,7 +609,7 @@ func (w *mtWorkload) apply(br *rig.BlockRecord, tx *rig.TxRecord, tag *mtTag) {
 			if m.Sender != c.Owner {
 				viol("class-handover-by-non-owner", "%s handed over class %s owned by %s", m.Sender, m.Id, c.Owner)
 			}
-			c.Owner = m.Recipient
+			c.Owner = htCanonAddr(m.Recipient)
 		} else if m.Sender != c.Owner {
 			run.Count("hostile-handover-rejected", 1)
 		}
@@ -795,4 +797,13 @@ func mtGenesisBattery(run *ev.Run, c int) {
 		check("after a burn")
 	}
 	run.Require("mt-genesis-started:consistent", 1)
+}
+
+// mtSpell: one recipient in eight is written in the other valid spelling of a bech32 address (all upper case)
+func mtSpell(rng *rand.Rand, run *ev.Run, addr string) string {
+	if rng.Intn(8) != 0 {
+		return addr
+	}
+	run.Count("recipient-spelled-in-upper-case", 1)
+	return strings.ToUpper(addr)
 }
